@@ -213,7 +213,7 @@ Example C17_hyps_mirror_satisfiable :
   /\ fits ToVector g pairs = true
   /\ forallb (fits ToGrid g) [pairs; @Pairs QOps (coords_of g)] = true
   /\ fits ToArray (G1D (@Build_mask1 QOps [true; false; false] 1 0) [1 # 2; 3 # 2]) (@Vals QOps [5; 6]) = true
-  /\ rout_near (maker_result ToArray (uapply (@F1 QOps (@FV QOps (@SAff QOps 3 1 0)))) g)
+  /\ rout_near 1 (maker_result ToArray (uapply (@F1 QOps (@FV QOps (@SAff QOps 3 1 0)))) g)
                (Ok (OOne (@Array2D QOps ex_mask [19 # 4; 21 # 4; - 7 # 4; - 5 # 4]))) = true
   /\ @spec_centres QOps ex_mask = coords_of g.
 Proof. vm_compute. repeat split. Qed.
